@@ -297,7 +297,7 @@ def _c10_probe(st, target, sign, rng):
     scale = 1.0
     if key == "ig" and rng.random() < 0.25:
         # nano-ampere ground currents: the rows of the table differ by less than 1e-8 A, and still differ
-        scale = 1e-5
+        scale = rng.choice([1e-5, 1e-6])      # (row differences of ~3e-8 A and of ~3e-9 A: around and below numpy's default atol)
         tab[key] = [[v * scale for v in row] for row in tab[key]]
         const = const * scale
     # the sign of tabulated coordinates is ignored and the vi rows may come in any order (the table is a scatter)
